@@ -591,7 +591,7 @@ fn run_c04(ctx: &Ctx, rep: &mut Report) {
             }
             let (sov, aov, bl, bp, recs) = obs.unwrap();
             rep.count("mapped");
-            rep.key(mix(hash_str(vt.name) ^ mix(n as u64) ^ mix(hash_str(&format!("{:?}", v)))));
+            rep.key(mix(hash_str(vt.name) ^ mix(n as u64) ^ mix(v.hash64())));
             if aov != a {
                 rep.violation(sig("align_of_val"), format!("{}: align_of_val = {} but reference alignment is {}", vt.name, aov, a), cj());
             }
